@@ -107,7 +107,10 @@ def strip_faults(root):
 
 
 MODES = [("default", ["-n", "--no-heading", "-H"]), ("count", ["-c", "-H"]), ("files-with-matches", ["-l"]),
-         ("files", ["--files"]), ("json", ["--json"]), ("quiet", ["-q"])]
+         ("files", ["--files"]), ("json", ["--json"]), ("quiet", ["-q"]),
+         # --quiet keeps its meaning for the exit status when combined with
+         # modes that make rg search everything anyway
+         ("quiet-stats", ["-q", "--stats"]), ("quiet-json", ["-q", "--json"]), ("quiet-count", ["-q", "-c"])]
 
 
 def normalize(mode, out):
@@ -165,7 +168,7 @@ def fault_case(case, env):
         status, so, se = r
         matched = c[0] == 0
         errored = len(active) > 0
-        quiet = mname == "quiet"
+        quiet = mname.startswith("quiet")
         want = 0 if matched and (quiet or not errored) else (2 if errored else 1)
         for f in active:
             env.count("fault_" + f["kind"])
